@@ -5,6 +5,7 @@
 (*   mg: the nested filter on the gen form of data   m2: second Match of the same Filter      *)
 (*   am: alt.Match(spec as a plain tree, data) (recorded for comparison only, not judged)     *)
 (*   simp: projection of NewFilter(dotted spec).Simplify()                                    *)
+(* Lines with ev = "node" are XBUILD (3): {g, v, empty, str, parsed, back} for one gen node.    *)
 (* Each answer is judged against FM(spec, data) of AltFilter.tla ("O" cells are not judged).  *)
 EXTENDS AltFilter, Json
 CONSTANT MaxBad
@@ -12,7 +13,7 @@ Log == ndJsonDeserialize("trace.ndjson")
 N == Len(Log)
 VARIABLE c
 tvars == <<spec, data, c>>
-TraceInit == c = 1 /\ spec = Null /\ data = Null /\ TLCSet(1, <<>>) /\ TLCSet(2, 0) /\ TLCSet(3, 0) /\ TLCSet(4, 0)
+TraceInit == c = 1 /\ spec = Null /\ data = Null /\ TLCSet(1, <<>>) /\ TLCSet(2, 0) /\ TLCSet(3, 0)
 
 Kind(x) == x.t
 Bad(form, got, exp) == <<[i |-> c, kind |-> "wrong-match", loc |-> <<form, IF got THEN "says-true" ELSE "says-false", Kind(Log[c].data)>>]>>
@@ -25,13 +26,22 @@ Judge(L) ==
    \o (IF L.mn # L.md THEN <<[i |-> c, kind |-> "forms-differ", loc |-> <<"dotted-vs-nested">>]>> ELSE <<>>)
    \o (IF ~Same(L.spec, L.simp) THEN <<[i |-> c, kind |-> "simplify-differs", loc |-> <<"simplify">>]>> ELSE <<>>)
 
-Load == /\ c <= N /\ spec' = Log[c].spec /\ data' = Log[c].data
-        /\ LET j == Judge(Log[c]) IN
+\* XBUILD (3): Empty() of the gen node types as their doc comments state it ("Empty returns true if the Array / Object
+\* is empty", "... if the backing string is empty" for Big, "Empty returns false" for Int, Float, Bool, Time); gen.String is
+\* not judged: its comment says the opposite of the Node interface comment.  String() is recorded only.
+ExpEmpty(L) == CASE L.g = "gen.Array" -> L.v.v = <<>>
+                 [] L.g = "gen.Object" -> DOMAIN L.v.m = {}
+                 [] L.g = "gen.Big" -> L.v.v = ""
+                 [] OTHER -> FALSE
+JudgeNode(L) == IF L.pan THEN <<[i |-> c, kind |-> "panic", loc |-> <<L.g>>]>>
+                ELSE IF L.g # "gen.String" /\ L.empty # ExpEmpty(L) THEN <<[i |-> c, kind |-> "empty-wrong", loc |-> <<L.g>>]>> ELSE <<>>
+
+Load == /\ c <= N
+        /\ (IF Log[c].ev = "node" THEN UNCHANGED <<spec, data>> ELSE spec' = Log[c].spec /\ data' = Log[c].data)
+        /\ LET j == IF Log[c].ev = "node" THEN JudgeNode(Log[c]) ELSE Judge(Log[c]) IN
            /\ (j = <<>> \/ Len(TLCGet(1)) >= MaxBad \/ TLCSet(1, TLCGet(1) \o j))
            /\ (j = <<>> \/ TLCSet(3, TLCGet(3) + Len(j)))
-           \* drift counter: alt.Match and the Filter disagree on a cell the rule table decides
-           /\ (Log[c].am = Log[c].mn \/ TLCSet(4, TLCGet(4) + 1))
         /\ TLCSet(2, c) /\ c' = c + 1
 TraceSpec == TraceInit /\ [][Load]_tvars
-Post == JsonSerialize("out.json", [n |-> TLCGet(2), bad |-> TLCGet(1), nbad |-> TLCGet(3), hits |-> [drift |-> TLCGet(4)]])
+Post == JsonSerialize("out.json", [n |-> TLCGet(2), bad |-> TLCGet(1), nbad |-> TLCGet(3), hits |-> [x \in {} |-> 0]])
 =============================================================================
